@@ -222,3 +222,50 @@ Proof.
         intros f post E. destruct (Hr f post E) as [A1 A2]. split; [lia|].
         replace (fs_idx f - o)%nat with (S (fs_idx f - S o)) by lia. cbn [firstn flight_sum]. rewrite Ed. lia.
 Qed.
+
+(* ------------------------------------------------------------------ more list facts *)
+Lemma last_default' {A} : forall (l : list A) x d d', last (x :: l) d = last (x :: l) d'.
+Proof. induction l as [|y ys IH]; intros x d d'; [reflexivity|]. cbn [last]. apply (IH y d d'). Qed.
+
+Lemma last_cons_ne {A} (y : A) l d : l <> [] -> last (y :: l) d = last l d.
+Proof. destruct l; [congruence|reflexivity]. Qed.
+
+Lemma last_app_cons {A} : forall (a : list A) x b d, last (a ++ x :: b) d = last (x :: b) d.
+Proof.
+  induction a as [|y ys IH]; intros x b d; [reflexivity|].
+  cbn [app]. rewrite last_cons_ne by (destruct ys; discriminate). apply IH.
+Qed.
+
+Lemma last_map {A B} (f : A -> B) : forall l d, last (map f l) (f d) = f (last l d).
+Proof.
+  induction l as [|x xs IH]; intro d; [reflexivity|].
+  cbn [map]. destruct xs as [|y ys]; [reflexivity|]. cbn [map last] in *. apply (IH d).
+Qed.
+
+Lemma sinc_le_last : forall l d, sinc l -> Forall (fun i => (i <= last l d)%nat) l.
+Proof.
+  induction l as [|x xs IH]; intros d H; [constructor|].
+  apply sinc_cons in H. destruct H as [H1 H2].
+  destruct xs as [|y ys]; [constructor; [cbn; lia|constructor]|].
+  specialize (IH d H2). change (last (x :: y :: ys) d) with (last (y :: ys) d).
+  constructor; [|exact IH]. inversion IH; subst. lia.
+Qed.
+
+Lemma sinc_app_intro : forall a b d,
+  sinc a -> sinc b -> (a = [] \/ match b with [] => True | y :: _ => (last a d < y)%nat end) -> sinc (a ++ b).
+Proof.
+  induction a as [|x xs IH]; intros b d Ha Hb Hl; [exact Hb|].
+  cbn [app]. apply sinc_cons. apply sinc_cons in Ha. destruct Ha as [Ha1 Ha2].
+  destruct Hl as [Hl|Hl]; [discriminate|].
+  split.
+  - destruct xs as [|y ys]; cbn [app]; [destruct b; [exact I|exact Hl]|exact Ha1].
+  - apply (IH b d Ha2 Hb). destruct xs as [|y ys]; [left; reflexivity|right].
+    destruct b; [exact I|]. exact Hl.
+Qed.
+
+(* seq_nr_offset always returns a value congruent to the difference *)
+Lemma seq_sub_congr a b : 0 <= a < M16 -> 0 <= b < M16 -> (a - b - seq_sub a b) mod M16 = 0.
+Proof.
+  unfold seq_sub, seq_nr_offset, wsub16, WRAP_TOLERANCE, M16. intros Ha Hb.
+  repeat match goal with |- context [if ?c then _ else _] => destruct c eqn:? end; lia.
+Qed.
